@@ -158,7 +158,7 @@ def flag_setup():
 
 
 def run(ctx):
-    ctx.proofs(["Proofs/FeesProofs", "Proofs/ExecFrameProofs"], model_targets=["Fees", "ExecFrame"])
+    ctx.proofs(["Proofs/FeesProofs", "Proofs/ExecFrameProofs", "Proofs/NativeRefineProofs"], model_targets=["Fees", "ExecFrame"])
     exe, err = vlib.build_harness("execframe")
     if exe is None:
         ctx.broken("harness-build", err)
